@@ -271,7 +271,7 @@ End Algo.
 
 (* ---------- the two machines ---------------------------------------------------------------------- *)
 Section Model.
-  Variable junk : nat -> nat -> Z.                        (* content of never-written memory: block id, offset *)
+  Variable junk : nat -> Z -> Z.                          (* content of never-written memory: block id, offset *)
   Variable cmp : list Z -> list Z -> Z.                   (* the comparison callback *)
   Variable sort : list (list Z) -> list (list Z).         (* libc qsort with cmp *)
   Variable find : list Z -> list (list Z) -> Z.           (* libc bsearch with cmp: index or -1 *)
@@ -279,7 +279,9 @@ Section Model.
   Variable adler_upd : Z -> list Z -> Z.                  (* zlib adler32 (crc, buf, len) *)
   Variable tyf : list Z -> Z.                             (* the type callback of sc_array_split *)
 
-  Definition mkjunk (b from n : nat) : list Z := map (junk b) (seq from n).
+  Fixpoint mkjunk_from (b : nat) (i : Z) (n : nat) : list Z :=
+    match n with O => [] | S k => junk b i :: mkjunk_from b (i + 1) k end.
+  Definition mkjunk (b from n : nat) : list Z := mkjunk_from b (Z.of_nat from) n.
 
   (* --- src/sc.c, pinned configuration ------------------------------------------------------------ *)
   Definition c_malloc (st : cstate) (n : Z) : cstate * nat :=
@@ -619,7 +621,7 @@ Definition adler_step (ab : Z * Z) (x : Z) : Z * Z := let a := (fst ab + x) mod 
 Definition adler32 (crc : Z) (buf : list Z) : Z :=
   let '(a, b) := fold_left adler_step buf (crc mod 65536, crc / 65536) in b * 65536 + a.
 Definition first_byte (x : list Z) : Z := match x with [] => 0 | b :: _ => b end.
-Definition junk0 (b i : nat) : Z := (Z.of_nat b * 37 + Z.of_nat i * 11 + 165) mod 256.
+Definition junk0 (b : nat) (i : Z) : Z := (Z.of_nat b * 37 + i * 11 + 165) mod 256.
 
 Definition c_step0 := c_step junk0 bcmp isort lfind 1 adler32 first_byte.
 Definition s_step0 := s_step bcmp isort lfind 1 adler32 first_byte.
